@@ -26,7 +26,7 @@ CLAIMS = {
     "C16": ("Real Static() closure with symbolic URL path, method and file-system answers (error/file/directory, failing Stat): only GET/HEAD, only under the prefix at a segment boundary, only the two allowed names are opened, silence when it cannot serve, 302 for slash-less directories, 304 on ETag match; plus the http.Dir containment lemma executed from stdlib SSA with os.Open intercepted.", "§3/C16"),
     "C17": ("Real Renderer/render.* with symbolic status, charset, indentation and body bytes: status, Content-Type before the status line, verbatim bytes; encoders stubbed by contract (reduced claim).", "§3/C17"),
     "C18": ("Real accessors with symbolic query values/defaults/presence; typed accessors over a menu of hostile numerals; cookie round trip as solver-decided lemmas over all byte values on the real net/url code, with net/http's cookie writer/reader assumed identity on QueryEscape's alphabet.", "§3/C18"),
-    "C13": ("Every k-step operation sequence (k<=4 quick, <=6 thorough) on the real responseWriter with symbolic status code, method bytes and write lengths, plus a one-step inductive lemma from an arbitrary invariant-satisfying state (sequences of any length modulo the invariant).", "§3/C13"),
+    "C13": ("Every k-step operation sequence (k<=4 quick, <=5 thorough) on the real responseWriter with symbolic status code, method bytes and write lengths, plus a one-step inductive lemma from an arbitrary invariant-satisfying state (sequences of any length modulo the invariant).", "§3/C13"),
 }
 
 TECH_BY = {
